@@ -184,6 +184,21 @@ def run_L4(repo, res):
     mod = repo.get_module('photutils.aperture.attributes')
     base = repo.get_class('photutils.aperture.attributes.ApertureAttribute')
     n = 0
+    # the array-valued descriptor stores a private copy: an aperture that holds the caller's
+    # array changes its positions (and keeps its cached bbox/mask) when the caller edits the array
+    from .C10 import get_alias
+    d, _ft = get_alias(repo)
+    pv = repo.functions.get('photutils.aperture.attributes.PixelPositions._validate')
+    if pv is None:
+        raise AnalysisError('vanished anchor: PixelPositions._validate')
+    shared = sorted(o for o in d.summary(pv).ret if o[0] in ('P', 'Pi') and o[1] not in ('self',))
+    res.oblige('L4', 'PixelPositions._validate returns a fresh array (never the caller\'s array or a view of it)', not shared,
+               nontrivial=True, sample={'function': pv.fullname, 'returned_origins': [list(o) for o in d.summary(pv).ret]})
+    if shared:
+        rets = [n_ for n_ in ast.walk(pv.node) if isinstance(n_, ast.Return) and n_.value is not None]
+        res.add(Finding('L4', pv.fullname, 'returns caller array', f'{pv.module.relpath}:{rets[-1].lineno if rets else pv.node.lineno}',
+                        f'PixelPositions._validate may return the caller\'s `{shared[0][1]}` itself (no copy on every path): the aperture '
+                        f'then shares its positions with the caller, so editing that array moves the aperture without resetting its caches', {}))
     for c in mod.classes.values():
         if not c.is_subclass_of(base.fullname) or '__set__' not in c.methods:
             continue
